@@ -25,6 +25,8 @@ def check(ctx):
     insertion(ctx, P)
     start_sites(ctx, P, views, iters)
     moves(ctx, P, views, iters)
+    from . import c12
+    c12.interrupted_sorted(ctx, P, views, iters)
     ctx.assume("built-in disciplines (FIFO/LIFO/SIRO); custom disciplines are excluded by the property")
 
 
